@@ -134,7 +134,7 @@ func c15Pool(r *mon.Rand, corpus []logenc.Group, hostile []string, n int) []loge
 			}
 			pool = append(pool, g)
 		default:
-			pool = append(pool, logenc.GenSyscallGroup(r, logenc.EventOpts{Mode: -1}))
+			pool = append(pool, logenc.GenSyscallGroup(r, logenc.EventOpts{Mode: -1, BadModes: true}))
 		}
 	}
 	return pool
@@ -282,7 +282,7 @@ func c15Concurrent(c *mon.Ctx) {
 	var pool []logenc.Group
 	pool = append(pool, corpus...)
 	for len(pool) < c.Pick(400, 4000) {
-		pool = append(pool, logenc.GenSyscallGroup(r, logenc.EventOpts{Mode: -1}))
+		pool = append(pool, logenc.GenSyscallGroup(r, logenc.EventOpts{Mode: -1, BadModes: true}))
 	}
 	// every named record type as the first record of compound events with three different syscalls
 	for _, typ := range c15Types {
